@@ -135,19 +135,26 @@ def _harness_dir():
     """The harness module is built against REPO. For the default /repo the module is used in place;
     for VERIF_REPO=<scratch worktree> (mutation experiments) a private copy with a rewritten
     `replace` directive is used so that concurrent runs do not interfere."""
+    global _HDIR
     if REPO == "/repo":
         return HARNESS, BIN
+    if _HDIR:
+        return _HDIR
     tag = hashlib.sha1(REPO.encode()).hexdigest()[:8]
     d = os.path.join(tempfile.gettempdir(), "verif-harness-" + tag)
     if os.path.exists(d):
         shutil.rmtree(d)
-    shutil.copytree(HARNESS, d)
+    shutil.copytree(os.path.join(ROOT, "harness"), d)
     gm = os.path.join(d, "go.mod")
     txt = open(gm).read().replace("=> /repo", "=> " + REPO)
     open(gm, "w").write(txt)
     b = os.path.join(d, "bin")
     os.makedirs(b, exist_ok=True)
+    _HDIR = (d, b)
     return d, b
+
+
+_HDIR = None
 
 
 def build_driver(name, race=False):
@@ -465,6 +472,10 @@ def _run_cases(ctx, binpath, args, cases, label="cases", timeout=3600, crash_is_
             break
         # the driver died: locate the culprit serially
         if len(crashes) >= max_crashes:
+            if crash_is_violation:
+                # several different cases kill the store: enough evidence, stop replaying this chunk
+                log("[run_cases] %d cases crash the real code; remaining cases of this chunk are skipped" % len(crashes))
+                break
             raise Infra("driver keeps dying (%d crashes); last stderr:\n%s" % (len(crashes), err[-2000:]))
         rc2, outs2, err2 = run_driver(binpath, list(args) + ["-progress"], stdin_path=path, timeout=timeout,
                                       ok_codes=range(0, 256))
@@ -487,3 +498,41 @@ def _run_cases(ctx, binpath, args, cases, label="cases", timeout=3600, crash_is_
     if crash_is_violation:
         mism.extend(crashes)
     return mism, summ, crashes
+
+
+# -------------------------------------------------------------------- trace validation (B2)
+def validate_trace(ctx, module, cfg, trace_path, timeout=1800, env=None, dfs=False):
+    """Check a recorded ndjson trace against a *Trace.tla spec (POSTCONDITION TraceAccepted on the
+    diameter). Returns dict(accepted, matched, total, violated, next_line)."""
+    with open(trace_path) as fh:
+        lines = [ln for ln in fh.read().splitlines() if ln.strip()]
+    e = {"TRACE": trace_path}
+    if env:
+        e.update(env)
+    if dfs:
+        e["_DFS"] = "1"
+    r = run_tlc(ctx, module, cfg, workers=1, env=e, timeout=timeout, deadlock=True, keep_lines=True)
+    post_failed = any("Postcondition" in ln and "is false" in ln for ln in r.lines)
+    accepted = r.rc == 0 and r.ok and not post_failed and not r.violated
+    matched = max(r.depth - 1, 0)
+    res = {"accepted": accepted, "matched": matched, "total": len(lines), "violated": r.violated,
+           "next_line": lines[matched] if matched < len(lines) else None, "rc": r.rc}
+    if not accepted and not post_failed and not r.violated:
+        raise Infra("trace validation did not run properly (rc=%s): %s" % (r.rc, (r.error or "\n".join(r.lines[-15:]))[:2000]))
+    return res
+
+
+def selftest_trace(ctx, module, cfg, trace_path, mutate, timeout=600):
+    """Binding self-test: a mutated copy of an accepted trace must be rejected, otherwise the trace
+    spec constrains nothing (Infra). `mutate(lines) -> lines`."""
+    with open(trace_path) as fh:
+        lines = fh.read().splitlines()
+    bad = mutate(list(lines))
+    p = trace_path + ".mutated"
+    with open(p, "w") as fh:
+        fh.write("\n".join(bad) + "\n")
+    r = validate_trace(ctx, module, cfg, p, timeout=timeout)
+    os.remove(p)
+    if r["accepted"]:
+        raise Infra("binding self-test failed: a corrupted trace was accepted by %s" % module)
+    return r
